@@ -32,20 +32,20 @@ theorem scanLinesGo_noNl (data cur : Bytes) (hcur : ∀ c ∈ cur, c ≠ nl) :
     · simp
     · intro l hl c hc
       simp only [List.mem_singleton] at hl; subst hl
-      exact hcur c (dropCR_sub _ c hc)
+      exact hcur c (List.mem_reverse.mp (dropCR_sub _ c hc))
   | cons x rest ih =>
     unfold scanLinesGo
     split
     · intro l hl c hc
       rcases List.mem_cons.mp hl with rfl | hl
-      · exact hcur c (dropCR_sub _ c hc)
+      · exact hcur c (List.mem_reverse.mp (dropCR_sub _ c hc))
       · exact ih [] (by simp) l hl c hc
     · rename_i hx
-      exact ih (cur ++ [x]) (by
+      exact ih (x :: cur) (by
         intro c hc
-        rcases List.mem_append.mp hc with hc | hc
-        · exact hcur c hc
-        · simp only [List.mem_singleton] at hc; subst hc; simpa using hx)
+        rcases List.mem_cons.mp hc with rfl | hc
+        · simpa using hx
+        · exact hcur c hc)
 
 theorem scanLines_noNl (data : Bytes) : ∀ l ∈ scanLines data, ∀ c ∈ l, c ≠ nl :=
   scanLinesGo_noNl data [] (by simp)
